@@ -193,6 +193,50 @@ Proof.
   destruct (var_or_loop ltb add mate_o mut_o cxpb mutpb pop (Z.to_nat lambda_) s) as [s' [e|l']]; reflexivity.
 Qed.
 
+(* ---- the number of offspring of var_and, without any hypothesis (used by the loop equivalences) ---- *)
+Lemma mate_loop_length cxpb : forall l (s s' : st) l',
+  mate_loop ltb mate_o cxpb s l = (s', inr l') -> length l' = length l.
+Proof.
+  induction l as [|a|a b r IH] using list_pair_ind; intros s s' l' H.
+  - cbn in H. now inversion H.
+  - cbn in H. now inversion H.
+  - cbn [mate_loop] in H. destruct (next_random s) as [[u s1]|]; [|discriminate].
+    destruct (ltb u cxpb).
+    + destruct (do_mate mate_o s1 a b) as [s2 [r1 r2]].
+      destruct (mate_loop ltb mate_o cxpb (do_del (do_del s2 r1) r2) r) as [s4 [e|r']] eqn:E; [discriminate|].
+      inversion H; subst. cbn [length]. now rewrite (IH _ _ _ E).
+    + destruct (mate_loop ltb mate_o cxpb s1 r) as [s4 [e|r']] eqn:E; [discriminate|].
+      inversion H; subst. cbn [length]. now rewrite (IH _ _ _ E).
+Qed.
+
+Lemma mut_loop_length mutpb : forall l (s s' : st) l',
+  mut_loop ltb mut_o mutpb s l = (s', inr l') -> length l' = length l.
+Proof.
+  induction l as [|a r IH]; intros s s' l' H.
+  - cbn in H. now inversion H.
+  - cbn [mut_loop] in H. destruct (next_random s) as [[u s1]|]; [|discriminate].
+    destruct (ltb u mutpb).
+    + destruct (do_mut mut_o s1 a) as [s2 r1].
+      destruct (mut_loop ltb mut_o mutpb (do_del s2 r1) r) as [s4 [e|r']] eqn:E; [discriminate|].
+      inversion H; subst. cbn [length]. now rewrite (IH _ _ _ E).
+    + destruct (mut_loop ltb mut_o mutpb s1 r) as [s4 [e|r']] eqn:E; [discriminate|].
+      inversion H; subst. cbn [length]. now rewrite (IH _ _ _ E).
+Qed.
+
+Lemma clone_all_length : forall pop (s : st), length (snd (clone_all s pop)) = length pop.
+Proof.
+  induction pop as [|p r IH]; intros s; cbn [clone_all]; [reflexivity|].
+  destruct (do_clone s p) as [s1 c]. specialize (IH s1). destruct (clone_all s1 r) as [s2 cs]. cbn in *. now rewrite IH.
+Qed.
+
+Lemma var_and_length cxpb mutpb (s s' : st) pop off :
+  var_and ltb mate_o mut_o cxpb mutpb s pop = (s', inr off) -> length off = length pop.
+Proof.
+  unfold var_and. pose proof (clone_all_length pop s) as Hc. destruct (clone_all s pop) as [s1 off1]. cbn in Hc.
+  destruct (mate_loop ltb mate_o cxpb s1 off1) as [s2 [e|off2]] eqn:E; [discriminate|].
+  intros H. rewrite (mut_loop_length _ _ _ _ _ H), (mate_loop_length _ _ _ _ _ E). exact Hc.
+Qed.
+
 End Equiv.
 
 (* ---- symbolic execution of one loop body ---- *)
